@@ -9,6 +9,9 @@ Space (configuration lattice): single ridges: row x x-offset x length {6,20,60,2
 (vertical separation 25 map px) + two ridges on one row; rotated passes: rotations {0,1,2,3} x page shapes {75x125, 125x75, 96x96 map
 px} x down-sampling {1,4} x ridge sets.
 
+(as built, added) adaptive down-sampling: the REAL TorchParseNet.get_maps_with_optimal_resolution (state: last_downsample) around a renderer
+of known pages; ALL histories of pages with 5 print sizes up to depth 2 / 3 x rotation {0, 1}.
+
 Oracle: count, end points, vertical position and heights against the painted ridges; outline == baseline_to_textline; for rotated
 passes detect(image, rot=k) against the exact inverse rot90 mapping of detect(rot90(image, k), rot=0), within 1 px.
 """
@@ -36,7 +39,7 @@ MAP_SHAPE = (120, 260)
 ALPHA8 = [(0, 2, 0, 0, 0, 0), (1, 1, 1, 1, 1, 1), (0, 3, 2, 2, 2, 0), (1, 0, 0, 0, 1, 0), (0, 1, 0, 2, 0, 1), (1, 2, 1, 0, 2, 0),
           (0, 2, 2, 1, 1, 1), (1, 3, 0, 1, 0, 0)]     # (x0, len, slope, thickness, heights, endpoints) indices
 ROT_SHAPES = [(75, 125), (125, 75), (96, 96)]
-BOUNDS = {'quick': dict(ds_single=[1, 4], multi_ds=[2]), 'thorough': dict(ds_single=DSS, multi_ds=[1, 2, 8])}
+BOUNDS = {'quick': dict(ds_single=[1, 4], multi_ds=[2], adaptive_depth=2), 'thorough': dict(ds_single=DSS, multi_ds=[1, 2, 8], adaptive_depth=3)}
 BOUNDS['replay'] = BOUNDS['quick']
 _ENG = {}
 
@@ -70,6 +73,8 @@ def shards(tier):
     for k in range(4):
         for s in range(len(ROT_SHAPES)):
             out.append({'kind': 'rot', 'rot': k, 'shape': s})
+    for f in range(len(PRINT_SIZES)):
+        out.append({'kind': 'adaptive', 'first': f})
     return out
 
 
@@ -90,6 +95,12 @@ def run_shard(shard, ctx, tier):
                 guarded_check(mod, {'ridges': [[2, f[0], min(f[1], 2)] + list(f[2:]), [2, 1, 1, g[2], g[3], g[4], g[5], 150]], 'ds': ds}, ctx)   # same row, second starts at x=150
                 for h in ALPHA8:
                     guarded_check(mod, {'ridges': [[0] + list(f), [1] + list(g), [3] + list(h)], 'ds': ds}, ctx)
+    elif shard['kind'] == 'adaptive':
+        n = len(PRINT_SIZES)
+        for L in range(1, b.get('adaptive_depth', 2) + 1):
+            for rest in itertools.product(range(n), repeat=L - 1):
+                for rot in (0, 1):
+                    guarded_check(mod, {'adaptive': [shard['first']] + list(rest), 'rot': rot}, ctx)
     else:
         for ds in (1, 4):
             for n in (1, 2):
@@ -220,6 +231,93 @@ def check_parse(case, ctx):
             ctx.sample({'ridges': ridges, 'ds': ds, 'baselines': [np.asarray(b).tolist() for b in b_list], 'heights': [list(map(float, h)) for h in h_list]})
 
 
+PRINT_SIZES = [30, 48, 110, 200, 320]          # ascender heights (original pixels) of the text on a 2400 x 1800 page
+PAGE_HW = (2400, 1800)
+
+
+def page_lines(size):
+    """three text lines of one print size: (y, x0, x1, ascender, descender) in original pixels"""
+    return [(int(2.2 * size) + k * int(3.4 * size), 120, 1500, float(size), float(size) / 3.0) for k in range(3)
+            if int(2.2 * size) + k * int(3.4 * size) + size < PAGE_HW[0]]
+
+
+def adaptive_parsenet(init_ds=4):
+    """the REAL TorchParseNet.get_maps_with_optimal_resolution / get_med_height (adaptive down-sampling, state kept in last_downsample)
+    around a renderer that draws the maps of the current page description at whatever resolution is requested"""
+    import types
+    from pero_ocr.layout_engines.torch_parsenet import TorchParseNet
+    pn = object.__new__(TorchParseNet)
+    d = {k: v.default for k, v in inspect.signature(TorchParseNet.__init__).parameters.items() if v.default is not inspect.Parameter.empty}
+    pn.max_megapixels = d['max_mp']
+    pn.detection_threshold = d['detection_threshold']
+    pn.adaptive_downsample = d['adaptive_downsample']
+    pn.init_downsample = pn.last_downsample = init_ds
+    pn.downsample_line_pixel_adapt_threshold = 100
+    pn.min_line_processing_height, pn.max_line_processing_height, pn.optimal_line_processing_height = 9, 15, 12
+    pn.min_downsample, pn.max_downsample = 1, 8
+    pn.truth = []
+    pn.rot = 0
+
+    def get_maps(self, img, downsample):
+        H, W = int(img.shape[0] / downsample), int(img.shape[1] / downsample)
+        maps = np.zeros((H, W, 5), dtype=np.float32)
+        for (y, x0, x1, asc, desc) in self.truth:
+            yy, a, b = int(round(y / downsample)), int(round(x0 / downsample)), int(round(x1 / downsample))
+            maps[max(yy - 8, 0):yy + 9, a:b + 1, 0] = asc / downsample
+            maps[max(yy - 8, 0):yy + 9, a:b + 1, 1] = desc / downsample
+            maps[yy, a:b + 1, 2] = 1.0
+        return maps
+    pn.get_maps = types.MethodType(get_maps, pn)
+    return pn
+
+
+def check_adaptive(case, ctx):
+    import copy
+    hist = [PRINT_SIZES[i] for i in case['adaptive']]
+    rot = case['rot']
+    eng = copy.copy(engine())
+    eng.parsenet = adaptive_parsenet()
+    res = None
+    for size in hist:
+        truth = page_lines(size)
+        if rot:
+            img = np.zeros((PAGE_HW[1], PAGE_HW[0], 3), dtype=np.uint8)      # the page as scanned: text runs vertically
+        else:
+            img = np.zeros((PAGE_HW[0], PAGE_HW[1], 3), dtype=np.uint8)
+        eng.parsenet.truth = truth
+        ctx.reseed()
+        res = eng.detect(img, rot=rot)
+    ctx.executed(len(hist))
+    ctx.state(('adaptive', tuple(hist), rot, round(float(eng.parsenet.last_downsample), 3)))
+    p_list, b_list, h_list, t_list = res
+    truth = page_lines(hist[-1])
+    desc = f'pages with print sizes {hist} (ascender px) analysed in turn, rotation {rot}; last page lines {truth}'
+    K = f'{ID}/adaptive-downsampling'
+    if len(b_list) != len(truth):
+        ctx.violation('one-line-per-ridge', f'{K}/line-count', f'{desc}: {len(b_list)} lines for {len(truth)} ridges')
+        return
+    # rotated pass: map the truth (given in the rotated frame) back to the page
+    Hr, Wr = PAGE_HW
+    got = sorted([np.asarray(b, dtype=float) for b in b_list], key=lambda b: (b[:, 1].mean() if not rot else -b[:, 0].mean()))
+    hts = [h for _, h in sorted(zip([(np.asarray(b)[:, 1].mean() if not rot else -np.asarray(b)[:, 0].mean()) for b in b_list], h_list))]
+    for (y, x0, x1, asc, dsc), b, h in zip(truth, got, hts):
+        if rot:
+            b = np.stack([b[:, 1], Hr - b[:, 0]], axis=1)        # back into the rotated frame (within a pixel)
+        tol = 3 * 8 + 2
+        if abs(b[0, 0] - x0) > tol or abs(b[-1, 0] - x1) > tol or np.abs(b[:, 1] - y).max() > 2 * 8 + 2:
+            ctx.violation('end-points-match', f'{K}/coordinates-off',
+                          f'{desc}: baseline {b.round(1).tolist()} should run from ({x0},{y}) to ({x1},{y}) (tolerance {tol} px)')
+            return
+        if abs(h[0] - asc) > 0.15 * asc + 8 or abs(h[1] - dsc) > 0.15 * dsc + 8:
+            ctx.violation('heights-match', f'{K}/heights-off', f'{desc}: heights {list(map(float, h))}, painted ({asc}, {dsc})')
+            return
+    ctx.outcome(('adaptive', round(float(eng.parsenet.last_downsample), 2)))
+    if len(hist) > 1 and hist[-1] != hist[-2]:
+        ctx.nontrivial(('adaptive', tuple(hist), rot), 'print-size-changes-between-pages')
+    if abs(float(eng.parsenet.last_downsample) - 4) > 1e-9:
+        ctx.tag('adaptive-factor-changed')
+
+
 class StubParseNet:
     """reads the 5 detection maps out of the (float) image, channel k of the image = map k, strided by ds"""
     def __init__(self, ds):
@@ -296,6 +394,8 @@ def check_rot(case, ctx):
 
 
 def check_case(case, ctx):
+    if 'adaptive' in case:
+        return check_adaptive(case, ctx)
     if 'rot' in case:
         check_rot(case, ctx)
     else:
@@ -313,5 +413,5 @@ def describe(tier):
         'assumptions': ['end points within 3 map px, rows within (1 + thickness/2) map px (+ slope x 3), heights exact for constant maps',
                         'the rotated pass is compared with the exact inverse rot90 of the layout decoded from the rotated image, tolerance 1 px'],
         'min_nontrivial': 100, 'required_tags': ['several-ridges', 'with-end-point-responses', 'sloped-ridges', 'rotated-non-square-pages',
-                          'two-lines-starting-on-the-same-row'],
+                          'two-lines-starting-on-the-same-row', 'print-size-changes-between-pages', 'adaptive-factor-changed'],
     }
